@@ -1032,6 +1032,32 @@ func checkC15Algebra(res *Result, pkgs []*packages.Package) {
 	}
 	walk(fd.Body.List, nil, false, "")
 	if acc == nil {
+		// the algebra may have been split out into a method of the same type that returns the
+		// map: `p := t.helper()` — read it there
+		for _, st := range fd.Body.List {
+			as, ok := st.(*ast.AssignStmt)
+			if !ok || len(as.Lhs) != 1 || len(as.Rhs) != 1 {
+				continue
+			}
+			c, ok := as.Rhs[0].(*ast.CallExpr)
+			if !ok || len(c.Args) != 0 {
+				continue
+			}
+			sel, ok := c.Fun.(*ast.SelectorExpr)
+			if !ok || types.ExprString(sel.X) != recv {
+				continue
+			}
+			hd := fds["TypeGenerator."+sel.Sel.Name]
+			if hd == nil || hd.Body == nil || hd.Recv == nil || len(hd.Recv.List[0].Names) != 1 {
+				continue
+			}
+			recv = hd.Recv.List[0].Names[0].Name
+			ops, unknown = nil, nil
+			walk(hd.Body.List, nil, false, "")
+			break
+		}
+	}
+	if acc == nil {
 		res.undecided("C15-R4", "TypeGenerator.allProperties", pos, "the accumulator starts from the type's own properties", "no `p := t.properties` found")
 		return
 	}
